@@ -438,6 +438,8 @@ func (rt *runtime) convertCallParameter(v Value, t reflect.Type) (reflect.Value,
 
 				tt := t.Elem()
 
+				isArray := true
+
 				switch o.class {
 				case classArrayName:
 					for i := range l {
@@ -490,9 +492,15 @@ func (rt *runtime) convertCallParameter(v Value, t reflect.Type) (reflect.Value,
 
 						s.Index(int(i)).Set(ev)
 					}
+				default:
+					// A function, a String object, ...: having a numeric length
+					// does not make it an array; report the mismatch below.
+					isArray = false
 				}
 
-				return s, nil
+				if isArray {
+					return s, nil
+				}
 			}
 		}
 	case reflect.Map:
